@@ -93,6 +93,8 @@ func main() {
 		}
 	case "selftest":
 		os.Exit(runSelftest(os.Args[2:]))
+	case "multi":
+		os.Exit(runMulti(os.Args[2:]))
 	default:
 		usage()
 	}
@@ -314,4 +316,87 @@ func writeEvidence(prop *Property, tier string, all, failed, knownHit []eng.Obli
 	if len(failed) == 0 {
 		_ = os.Remove(filepath.Join(verifDir, "evidence", prop.ID+".violation.json"))
 	}
+}
+
+// runMulti loads the tree once and runs the rules of several properties against it (no evidence
+// written).  Used by bin/try-seed and the seed matrix; it is not a registered check.
+func runMulti(args []string) int {
+	repo := "/repo"
+	var ids []string
+	for i := 0; i < len(args); i++ {
+		if args[i] == "-repo" {
+			i++
+			repo = args[i]
+			continue
+		}
+		ids = append(ids, args[i])
+	}
+	if len(ids) == 0 || ids[0] == "all" {
+		ids = eng.SortedKeys(registry)
+	}
+	p, err := eng.Load(eng.LoadOpts{RepoDir: repo})
+	if err != nil {
+		fmt.Println("UNDECIDED load failed:", strings.ReplaceAll(err.Error(), "\n", " "))
+		return 2
+	}
+	known := loadKnown()
+	rc := 0
+	for _, id := range ids {
+		prop := registry[id]
+		if prop == nil {
+			fmt.Printf("== %s unknown\n", id)
+			continue
+		}
+		c := eng.NewCtx(p, id, "quick")
+		var und string
+		func() {
+			defer func() {
+				if r := recover(); r != nil {
+					if u, ok := r.(eng.Undecided); ok {
+						und = u.Reason
+						return
+					}
+					und = fmt.Sprintf("analysis panic: %v", r)
+				}
+			}()
+			prop.Run(c)
+		}()
+		if und != "" {
+			fmt.Printf("== %s exit=2 UNDECIDED %s\n", id, und)
+			rc = 2
+			continue
+		}
+		var failed []eng.Obligation
+		for _, ob := range c.Obls {
+			if ob.OK {
+				continue
+			}
+			isKnown := false
+			for _, k := range known {
+				if k.Property == id && k.Status == "open" && k.Key == ob.Key() {
+					isKnown = true
+				}
+			}
+			if !isKnown {
+				failed = append(failed, ob)
+			}
+		}
+		if len(c.Obls) < prop.MinObligations {
+			fmt.Printf("== %s exit=2 UNDECIDED only %d obligations (< %d)\n", id, len(c.Obls), prop.MinObligations)
+			rc = 2
+			continue
+		}
+		code := 0
+		if len(failed) > 0 {
+			code = 1
+			if rc == 0 {
+				rc = 1
+			}
+		}
+		fmt.Printf("== %s exit=%d obligations=%d failed=%d\n", id, code, len(c.Obls), len(failed))
+		for _, ob := range failed {
+			fmt.Printf("FAIL %s at %s in %s: %s — %s\n", ob.Rule, ob.Pos, ob.Where, ob.What, ob.Detail)
+		}
+	}
+	return rc
 }
